@@ -20,5 +20,5 @@ func TestC01(t *testing.T) {
 		"Get, FindMissing and GetFromComposite (other operations interleaved while the slicer runs) on real local stores assembled like new_blob_access.go: " +
 		"flat (both key formats), hierarchical CAS and AC flavour x in-memory/block-device allocator x in-memory/block-device index; old/current/new/spare tiny, " +
 		"sectors 1..16 bytes, sizes biased to 0,1,sector+-1,block,block+1; non-trivial = at least one block rotation; distinct by script hash")
-	stx.Main(run, model, "C01", []string{"C01"}, []string{"flat", "flat", "flati", "hier", "ac"}, 600, 12000)
+	stx.Main(run, model, "C01", []string{"C01"}, []string{"flat", "flati", "hier", "hier", "ac"}, 2500, 40000)
 }
